@@ -882,7 +882,12 @@ func c18ArgumentRoles(w *World, r *Report) {
 		}
 		switch x := v.(type) {
 		case *ssa.Parameter:
-			return "param " + x.Name()
+			for i, q := range x.Parent().Params {
+				if q == x {
+					return fmt.Sprintf("param #%d", i)
+				}
+			}
+			return "param ?"
 		case *ssa.UnOp:
 			if _, ok := x.X.(*ssa.IndexAddr); ok {
 				return "element"
@@ -902,12 +907,12 @@ func c18ArgumentRoles(w *World, r *Report) {
 		return "other"
 	}
 	want := map[string][]string{
-		"hasMandatoryChildren: isAChoice":         {"param sn", "element"},
-		"hasCaseMandatoryChildren: isACaseChoice": {"param nd", "element"},
-		"checkMandatory: isAChoice":               {"call schema", "element"},
-		"isActiveDefault: cfgChkr #1":             {"element"},
-		"isActiveDefault: cfgChkr #2":             {"param sch"},
-		"isActiveDefaultCase: cfg #1":             {"element"},
+		"hasMandatoryChildren: isAChoice":                {"param #0", "element"},
+		"hasCaseMandatoryChildren: isACaseChoice":        {"param #1", "element"},
+		"checkMandatory: isAChoice":                      {"call schema", "element"},
+		"isActiveDefault: cfg checker (param #3) #1":     {"element"},
+		"isActiveDefault: cfg checker (param #3) #2":     {"param #0"},
+		"isActiveDefaultCase: cfg checker (param #3) #1": {"element"},
 	}
 	seen := map[string]bool{}
 	sp := w.SSAPkg("schema")
@@ -930,10 +935,16 @@ func c18ArgumentRoles(w *World, r *Report) {
 					continue
 				}
 				if sc := c.Call.StaticCallee(); sc != nil && (nm(sc) == "isAChoice" || nm(sc) == "isACaseChoice") {
-					sites = append(sites, site{fn + ": " + sc.Name(), c.Call.Args, c.Pos()})
+					sites = append(sites, site{fn + ": " + nm(sc), c.Call.Args, c.Pos()})
 				} else if p, ok := c.Call.Value.(*ssa.Parameter); ok && !c.Call.IsInvoke() {
 					if _, isSig := p.Type().Underlying().(*types.Signature); isSig {
-						sites = append(sites, site{fmt.Sprintf("%s: %s", fn, p.Name()), c.Call.Args, c.Pos()})
+						idx := 0
+						for i, q := range f.Params {
+							if q == p {
+								idx = i
+							}
+						}
+						sites = append(sites, site{fmt.Sprintf("%s: cfg checker (param #%d)", fn, idx), c.Call.Args, c.Pos()})
 					}
 				}
 			}
